@@ -263,7 +263,7 @@ pub fn run_sched(
     }
     let mut observations: std::collections::BTreeMap<String, u64> = Default::default();
     for f in r.found.iter() {
-        if own_clause(&f.clause) {
+        if own_clause(&f.clause) || crate::report::is_fatal_clause(&f.clause) {
             if rep.findings.len() < 500 {
                 let p = progs.iter().find(|p| p.name == f.prog).unwrap();
                 let deviations: Vec<(usize, usize)> = f.choices.iter().enumerate().filter(|(_, &c)| c != 0).map(|(i, &c)| (i, c)).collect();
